@@ -109,6 +109,8 @@ TRepro ==
      IN /\ Diag("C19", FirstDiff(e.a, e.b, 1) = 0, [kind |-> "second run in the same process differs", fen |-> e.fen, seed |-> e.seed, depth |-> e.depth, index |-> FirstDiff(e.a, e.b, 1)])
         /\ Diag("C19", FirstDiff(e.a, e.c, 1) = 0, [kind |-> "run in another process differs", fen |-> e.fen, seed |-> e.seed, depth |-> e.depth, index |-> FirstDiff(e.a, e.c, 1)])
         /\ Diag("C19", Len(e.a) > 0, [kind |-> "TOOL: empty run", fen |-> e.fen])
+        \* the premise under which the public entry point is in the property's range (Search.tla: Workers(d) = 1 for d < 3)
+        /\ Diag("DRIFT", e.api # "public" \/ e.shallow_workers <= 1, [kind |-> "public entry point ran an iteration below depth 3 with more than one worker", fen |-> e.fen, depth |-> e.depth, workers |-> e.shallow_workers])
   /\ UNCHANGED <<pos, cur>>
 
 TraceInit == l = 1 /\ pos = StartPos /\ cur = NoSearch
